@@ -10,7 +10,7 @@
 //           reinterpretation of digest slices as pairs is modelled by two specified external functions (see below).
 // Not decided here: batch openings (BTreeMap code: bounded stand-in); the concurrent construction; collision resistance is
 // not a property of the code.
-// verify is proved for claimed indices below 2^(len-1) (an index beyond that overflows `index + 2^(len-1)` when len = 64).
+// verify refuses claimed indices >= 2^(len-1) (positions that do not exist in a tree of that depth) - repaired in session 5.
 use vstd::prelude::*;
 use vstd::arithmetic::power2::*;
 use vstd::arithmetic::div_mod::*;
@@ -175,11 +175,11 @@ impl MerkleTree {
     //@@|                lemma_pow2_strictly_increases((e - (k - 1)) as nat, 63);
     //@@|            }
     pub fn verify(root: D, index: usize, proof: &[D]) -> (r: Result<(), MerkleTreeError>)
-        requires
-            2 <= proof.len() <= 64 ==> index < pow2((proof.len() - 1) as nat),
         ensures
             (proof.len() < 2 || proof.len() > 64) ==> r is Err,
-            2 <= proof.len() <= 64 ==> (r is Ok <==> fold(index as int, proof@, proof.len() - 1) == root),
+            // a position beyond the last leaf of a tree of this depth is refused
+            (2 <= proof.len() <= 64 && index >= pow2((proof.len() - 1) as nat)) ==> r is Err,
+            (2 <= proof.len() <= 64 && index < pow2((proof.len() - 1) as nat)) ==> (r is Ok <==> fold(index as int, proof@, proof.len() - 1) == root),
     {
         let ghost i0 = index as int;
         let ghost e = (proof.len() - 1) as nat;
